@@ -269,6 +269,22 @@ func renderValue1(v ssa.Value, d int) string {
 				return "in{" + set + "}(" + renderValue(lk.Index, d+1) + ")"
 			}
 		}
+		if c, ok := x.Tuple.(*ssa.Call); ok && x.Index == 0 && len(c.Call.Args) == 2 {
+			// the remainder strings.CutPrefix/CutSuffix hands back is a piece of its operand: s[:]
+			// (slice bounds are not rendered)
+			if rf := refOf(c.Common()); rf.is("strings", "", "CutPrefix") || rf.is("strings", "", "CutSuffix") {
+				return renderValue(c.Call.Args[0], d+1) + "[:]"
+			}
+		}
+		if c, ok := x.Tuple.(*ssa.Call); ok && x.Index == 1 && len(c.Call.Args) == 2 {
+			// the "found" result of strings.CutPrefix/CutSuffix is strings.HasPrefix/HasSuffix
+			rf := refOf(c.Common())
+			for _, pr := range [][2]string{{"CutPrefix", "HasPrefix"}, {"CutSuffix", "HasSuffix"}} {
+				if rf.is("strings", "", pr[0]) {
+					return "strings." + pr[1] + "(" + renderValue(c.Call.Args[0], d+1) + "," + renderValue(c.Call.Args[1], d+1) + ")"
+				}
+			}
+		}
 		if c, ok := x.Tuple.(*ssa.Call); ok {
 			if cal, v := unfoldResult(c, x.Index); v != nil {
 				renderEnv = append(renderEnv, renderFrame{cal, c.Call.Args})
@@ -950,10 +966,77 @@ func renderSkipDecision1(bb *ssa.BasicBlock, k int) string {
 	}
 	var parts []string
 	for _, a := range atoms {
+		if s, ok := cutRemainderEmpty(bb, a.v, a.val); ok {
+			parts = append(parts, s)
+			continue
+		}
 		parts = append(parts, renderCondV(a.v, a.val))
 	}
 	sort.Strings(parts)
 	return strings.Join(parts, " && ")
+}
+
+// cutRemainderEmpty: `rest, found := strings.CutPrefix(s, "=="); … rest == ""` tested where found is
+// known to hold is the test `len(s) < 3` made after `strings.HasPrefix(s, "==")` held: the remainder
+// is empty exactly when s is no longer than the prefix. Rendered as that length test (one canonical
+// form for both spellings); only under the found edge, where the two are the same test.
+func cutRemainderEmpty(bb *ssa.BasicBlock, cond ssa.Value, val bool) (string, bool) {
+	inner, flip := stripNot(cond)
+	b, ok := inner.(*ssa.BinOp)
+	if !ok || (b.Op != token.EQL && b.Op != token.NEQ) {
+		return "", false
+	}
+	var rest ssa.Value
+	switch {
+	case isEmptyStringConst(b.Y):
+		rest = b.X
+	case isEmptyStringConst(b.X):
+		rest = b.Y
+	default:
+		// len(rest) == 0
+		for _, pr := range [][2]ssa.Value{{b.X, b.Y}, {b.Y, b.X}} {
+			if lc, isC := pr[0].(*ssa.Call); isC && isCallTo(lc, "builtin", "", "len") {
+				if k, isK := constInt(pr[1]); isK && k == 0 {
+					rest = lc.Call.Args[0]
+				}
+			}
+		}
+	}
+	ex, ok := rest.(*ssa.Extract)
+	if !ok || ex.Index != 0 {
+		return "", false
+	}
+	c, ok := ex.Tuple.(*ssa.Call)
+	if !ok || len(c.Call.Args) != 2 {
+		return "", false
+	}
+	rf := refOf(c.Common())
+	if !rf.is("strings", "", "CutPrefix") && !rf.is("strings", "", "CutSuffix") {
+		return "", false
+	}
+	p, isP := constString(c.Call.Args[1])
+	if !isP {
+		return "", false
+	}
+	found, _ := guardEdges(bb.Parent(), func(v ssa.Value) (bool, bool) {
+		e2, isE := v.(*ssa.Extract)
+		return isE && e2.Tuple == ssa.Value(c) && e2.Index == 1, true
+	})
+	if len(found) == 0 || !onlyVia(bb.Parent(), bb, found) {
+		return "", false
+	}
+	empty := (b.Op == token.EQL) == (val != flip)
+	ln := "builtin.len(" + renderValue(c.Call.Args[0], 1) + ")"
+	k := fmt.Sprintf("%d:int", len(p)+1)
+	if empty {
+		return ln + " < " + k, true
+	}
+	return k + " <= " + ln, true
+}
+
+func isEmptyStringConst(v ssa.Value) bool {
+	s, ok := constString(v)
+	return ok && s == ""
 }
 
 func isPackageAppend(in ssa.Instruction) bool {
